@@ -142,7 +142,7 @@ class C11(Check):
                 raise RuntimeError(f"C11: case outside the model (code {m[1]}): {self.show(c)}")
             self._valid[id(c)] = bool(rest[1]) if len(rest) > 1 else True
             if fi == ["empty_piece_list_raises"] and self._known_entry():
-                # the recorded finding D16: the first occurrences go through the shared verdict logic (which prints
+                # a recorded finding (D17 before it was repaired): the first occurrences go through the shared verdict logic (which prints
                 # the KNOWN-FINDING line); further ones are only counted, so that they do not end the run early
                 self._known_seen += 1
                 if self._known_seen > 3:
@@ -158,7 +158,7 @@ class C11(Check):
                    and e.get("clause") == "empty_piece_list_raises" for e in common.load_known())
 
     def extra_checks(self, tier, rng, report):
-        report["extra"]["known_finding_D16_occurrences"] = self._known_seen
+        report["extra"]["known_finding_occurrences"] = self._known_seen
 
     def model_should_hold(self, c):
         return self._valid.get(id(c), True)
